@@ -15,6 +15,8 @@ parser and the displayed public key use the single LongTermKey built from load_s
 plaintext arm.  (4) Certificates: see C02.1 (context, payload, MINT/MAXT) and C13.1 (buffer cleared after each signature).
 (5) Cross-protocol separation: the two delegation context strings differ at a byte position inside both, so no DELE payload makes the
 signed strings equal.(6) The certificate a responder sends is the one made for the online key it signs with (C02: Responder::new/certifies-stored-key-and-version, send_responses/cert-is-own-certificate).
+(6b) That key stays the signing key: no link of Responder.online_key -> OnlineKey.signer -> MsgSigner.signing_key (and LongTermKey.signer) is assigned after
+construction or mutably borrowed by anything other than a method of the field's own type, so the certificate made at start-up delegates the key of every later signature.
 """
 NOT_DECIDED = "that ed25519-dalek derives the RFC 8032 public key from the seed (trusted)"
 TRUSTED = ["ed25519-dalek SigningKey::from / verifying_key", "ring digest SHA-512"]
